@@ -657,7 +657,8 @@ TYPE_POOL = {
     "STRING": ['""', '"a"', '"abc def"', '"%1%2"', '"Car"', '"x"', '"' + "y" * 600 + '"', '"[1,2"', '"A"'],
     "ARRAY": ["[]", "[0]", "[1,2,3]", "[[]]", '["a",1,true]', "[[1,2],[3,4]]", "[objNull]", "[1e20,-1]", "[0,0,0]", '["Car",[0,0,0],[],0,"NONE"]',
               "[[[[[[]]]]]]", "[" + ",".join(str(i) for i in range(300)) + "]", "[(sqrt -1),(1e38 * 10)]", '[configFile,"true"]',
-              '["a","b"]', "[{true},{false}]", "[objNull,grpNull,configNull,scriptNull]"],
+              '["a","b"]', "[{true},{false}]", "[objNull,grpNull,configNull,scriptNull]",
+              "[nil]", '["a",nil,1]', "[1,nil]", "[[nil],nil]"],          # nil is a wrong element type everywhere
     "CODE": ["{}", "{true}", "{1}", "{_x}", "{nil}"],
     "OBJECT": ["objNull", '("Car" createVehicle [0,0,0])', '((createGroup west) createUnit ["Man",[0,0,0],[],0,"NONE"])'],
     "GROUP": ["grpNull", "(createGroup west)"],
